@@ -20,8 +20,8 @@ PROPS = {
              "1-2 results, with cond/while/fori/call equations, literals and closed-over constants in between), checks on the spec "
              "itself pointer bounds, frame order = static pre-order of the record points, final = EvalProg(f,args), and that the "
              "continuation-based remix equals re-running the whole program with that call's arguments overridden (RemixLaw), on the "
-             "full state graph, with -coverage showing every action fires. It then prints every behaviour of length <= 3 (a few "
-             "programs: <= 4) over jump(tag) for every recorded tag, jump(missing tag), fwd, bwd, remix(3 argument tuples) with the "
+             "full state graph, with -coverage showing every action fires. It then prints every behaviour of length <= 3 (thorough "
+             "tier: also <= 4; programs with control flow: <= 2) over jump(tag) for every recorded tag, jump(missing tag), fwd, bwd, remix(3 argument tuples) with the "
              "expected (final, [(tag,args,local_retval)], ptr) after each action; the driver replays them on time_machine(f)(*args) "
              "and compares after every action.",
         note="Trusted: TLC, the IR->JAX builder (ordinary evaluation compared with TLC's final value every run). The kept local "
@@ -30,9 +30,9 @@ PROPS = {
 }
 
 
-def write_cfg(path, seed, nprog, maxlen, keephist, emit, invariants):
+def write_cfg(path, seed, nprog, maxlen, maxnest, keephist, emit, invariants):
     with open(path, "w") as f:
-        f.write(f"CONSTANTS Seed = {seed % 60000}\n NProg = {nprog}\n MaxLen = {maxlen}\n MaxNest = 1\n"
+        f.write(f"CONSTANTS Seed = {seed % 60000}\n NProg = {nprog}\n MaxLen = {maxlen}\n MaxNest = {maxnest}\n"
                 f" KeepHist = {'TRUE' if keephist else 'FALSE'}\n Emit = {'TRUE' if emit else 'FALSE'}\nSPECIFICATION Spec\n")
         for inv in invariants:
             f.write(f"INVARIANT {inv}\n")
@@ -118,7 +118,7 @@ def check_program(pc):
     nodes = pc["nodes"]
     fails, machinery = [], []
     stats = dict(nodes=0, actions={}, remix_changed_final=0)
-    f = jaxir.build(prog, kc, rec=rec, tag=tag)
+    f = jaxir.build(prog, kc, rec=rec, tag=tag, prims_only=True)
     inputs = tuple(jaxir.to_input(v) for v in P["inp"])
     root_exp = nodes["[]"]
     ordinary = _leaves(f(*inputs))
@@ -204,7 +204,7 @@ def run(prop_id, tier, seed, replay=None):
         q = tier == "quick"
         # role A on the full state graph (no history, no length bound), with coverage
         cfgA = os.path.join(wd, "MC.cfg")
-        write_cfg(cfgA, seed, 60 if q else 200, 0, False, False, ["RoleA"])
+        write_cfg(cfgA, seed, 12 if q else 150, 0, 1, False, False, ["RoleA"])
         a = vlib.run_tlc("TimeTravel", cfgA, wd, tag="roleA", coverage=True, timeout=1500)
         rep.add_tlc(a)
         cov = vlib.tlc_coverage(a)
@@ -214,20 +214,20 @@ def run(prop_id, tier, seed, replay=None):
         for name in ("JumpAny", "JumpMissing", "Fwd", "Bwd", "RemixAny"):
             if acts.get(name, {}).get("total", 0) == 0:
                 raise vlib.MachineryError(f"action {name} never fired in the role-A run (vacuous model)")
-        # role B: behaviours
-        cfgB = os.path.join(wd, "Gen3.cfg")
-        write_cfg(cfgB, seed, 100 if q else 400, 3, True, True, ["RoleA", "EmitCase"])
-        b = vlib.run_tlc("TimeTravel", cfgB, wd, tag="gen3", timeout=2400)
-        rep.add_tlc(b)
-        collect(b, "L3", programs)
-        cfgC = os.path.join(wd, "Gen4.cfg")
-        write_cfg(cfgC, seed + 7, 14 if q else 60, 4, True, True, ["RoleA", "EmitCase"])
-        c = vlib.run_tlc("TimeTravel", cfgC, wd, tag="gen4", timeout=2400)
-        rep.add_tlc(c)
-        collect(c, "L4", programs)
+        # role B: behaviours.  The real debugger re-stages and eagerly re-executes the program at every remix, and an eager
+        # cond / while / scan of a fresh jaxpr costs an XLA compilation, so control-flow programs get short behaviours.
+        plans = [("L3", seed, 30, 3, 0), ("CF", seed + 13, 24, 2, 1)] if q else \
+                [("L3", seed, 400, 3, 0), ("L4", seed + 7, 45, 4, 0), ("CF", seed + 13, 200, 2, 1)]
+        for name, sd, nprog, maxlen, maxnest in plans:
+            cfg = os.path.join(wd, f"Gen{name}.cfg")
+            write_cfg(cfg, sd, nprog, maxlen, maxnest, True, True, ["RoleA", "EmitCase"])
+            b = vlib.run_tlc("TimeTravel", cfg, wd, tag="gen" + name, timeout=2400)
+            rep.add_tlc(b)
+            collect(b, name, programs)
         rep.exhaustive = True
         rep.extra["exhaustive_scope"] = ("for each generated (program, input): every action sequence of length <= 3 (L3 programs) / "
-                                         "<= 4 (L4 programs) over the action alphabet; the programs themselves are sampled")
+                                         "<= 4 (L4 programs) / <= 2 (CF programs, with control flow) over the action alphabet; "
+                                         "the programs themselves are sampled")
     pcs = sorted(programs.values(), key=lambda pc: -len(pc["nodes"]))
     buckets = [[] for _ in range(vlib.NCPU * 2)]
     loads = [0] * len(buckets)
@@ -235,9 +235,7 @@ def run(prop_id, tier, seed, replay=None):
         i = loads.index(min(loads))
         buckets[i].append(pc)
         loads[i] += len(pc["nodes"])
-    os.environ.setdefault("XLA_FLAGS", "--xla_cpu_multi_thread_eigen=false intra_op_parallelism_threads=1")
-    ctx = mp.get_context("spawn")
-    with ctx.Pool(vlib.NCPU) as pool:
+    with vlib.pinned_pool() as pool:
         results = pool.map(_work, [b for b in buckets if b], chunksize=1)
     by_key = {pc["key"]: pc for pc in pcs}
     machinery, per_sig = [], {}
